@@ -626,3 +626,32 @@ M("c12-shift-onto-terminal", "C12", "cola/libavoid/hyperedgeimprover.cpp",
 M("c09-neutral-cache-overlapx", "C09", "cola/libvpsc/rectangle.cpp",
   "        Node *u=*(i);\n        if(u->r->overlapX(v->r)<=0) {\n            rightv->insert(u);\n            return rightv;\n        }\n        if(u->r->overlapX(v->r)<=u->r->overlapY(v->r)) {",
   "        Node *u=*(i);\n        const double ox=u->r->overlapX(v->r);\n        if(ox<=0) {\n            rightv->insert(u);\n            return rightv;\n        }\n        if(ox<=u->r->overlapY(v->r)) {", expect="silent")
+
+# ---------------------------------------------------------------- reverts of the repairs of round d
+M("c04-corner-touch-not-counted", "C04", "cola/libavoid/geometry.cpp",
+  "    else if (pointOnLine(e1, e2, s2) && (vecDir(e1, e2, s1) != 0))\n    {", "    else if (false && pointOnLine(e1, e2, s2) && (vecDir(e1, e2, s1) != 0))\n    {",
+  mention=["SHAPE-BLOCKING"])
+M("c16-corner-touch-along-side", "C16", "cola/libavoid/geometry.cpp",
+  "    else if (pointOnLine(e1, e2, s2) && (vecDir(e1, e2, s1) != 0))\n    {", "    else if (pointOnLine(e1, e2, s2))\n    {",
+  mention=["segmentShapeIntersect"])
+M("c17-g-diagonal-left-out", "C17", "cola/libcola/colafd.cpp",
+  "                G[i][j]=0;\n                continue;", "                continue;", mention=["IDEAL-DISTANCES", "diagonal"])
+M("c01-solver-keeps-active", "C01", "cola/libvpsc/solve_VPSC.cpp",
+  "        c->active = false;\n    }\n    bs=new Blocks(vs);", "    }\n    bs=new Blocks(vs);", mention=["SOLVER-TAKES-OVER"])
+M("c05-final-step-free", "C05", "cola/libavoid/makepath.cpp",
+  "            if (atCostTarget && node.inf->id.isConnectionPin())", "            if (atCostTarget && (node.inf->id.isConnectionPin() || (node.inf == tar)))",
+  mention=["FINAL-STEP-CHARGED"])
+M("c05-prune-despite-restricted-end", "C05", "cola/libavoid/makepath.cpp",
+  "            if (isOrthogonal && pruneTurns && !(*edge)->isDummyConnection())", "            if (isOrthogonal && !(*edge)->isDummyConnection())",
+  mention=["FINAL-STEP-CHARGED", "turn pruning"])
+M("c18-swap-keeps-backpointers", "C18", "cola/libdialect/graphs.h",
+  "        first.m_sepMatrix.setGraph(&first);\n        second.m_sepMatrix.setGraph(&second);\n", "", mention=["MATRIX-BACKPOINTER"],
+  tu=["cola/libdialect/graphs.cpp"])
+M("c15-sepmatrix-copy-defaulted", "C15", "cola/libdialect/constraints.h",
+  "    SepMatrix(const SepMatrix &m)\n        : cola::CompoundConstraint(vpsc::UNSET, m.priority()),\n          m_extraBdryGap(m.m_extraBdryGap), m_graph(m.m_graph), m_sparseLookup(m.m_sparseLookup) {\n        _combineSubConstraints = true;\n    }",
+  "    SepMatrix(const SepMatrix &m) = default;", mention=["COPY-OWNERSHIP"], tu=["cola/libdialect/graphs.cpp", "cola/libdialect/constraints.cpp"])
+M("c19-sort-unstable-again", "C19", "cola/libdialect/planarise.cpp",
+  "        std::stable_sort(evts.begin(), evts.end(), [](Event *a, Event *b) -> bool {return a->varCoord < b->varCoord;});",
+  "        std::sort(evts.begin(), evts.end(), [](Event *a, Event *b) -> bool {return a->varCoord < b->varCoord;});", mention=["NODE-GROUPS"])
+M("c10-pair-ids-sixteen-bits", "C10", "cola/libavoid/orthogonal.cpp",
+  "        unsigned int m_index1;\n        unsigned int m_index2;", "        unsigned short m_index1;\n        unsigned short m_index2;", mention=["ID-WIDTH"])
